@@ -7,7 +7,7 @@ cd /repo || exit 9
 git diff --quiet || { echo "/repo is dirty"; exit 9; }
 export PYVC_EVIDENCE_DIR=/tmp/ctl_evidence PYVC_REPLAY_DIR=/tmp/ctl_replays
 bad=0
-for d in /verif/controls/R*/; do
+for d in ${CONTROLS:-/verif/controls/R*/}; do
   id=$(basename "$d")
   git apply "$d/patch.diff" || { echo "$id patch does not apply"; bad=1; continue; }
   for p in C01 C02 C03 C04 C05 C06 C07 C08 C09 C10 C11 C12 C13 C14 C15 C16 C17 C18 C19 C20; do
